@@ -691,18 +691,22 @@ Section ConeUpdate.
     forall s s1, Estatic E s ->
     foldM (fun s x => set_fstate_hash (p_path x) (p_state x)
                         (Some (match p_hash x with Some v => Some v | None => Some 0 end)) s) plan s = Ok s1 ->
-    nodes s1 = nodes s /\ steps s1 = steps s /\ deps s1 = deps s /\ Estatic E s1.
+    nodes s1 = nodes s /\ steps s1 = steps s /\ deps s1 = deps s /\ Estatic E s1 /\
+    (forall f, fstate_of f s1 = fstate_of f s \/ fstate_of f s1 = Some FConfirmed \/ fstate_of f s1 = Some FMissing).
   Proof.
     induction plan as [|x plan IH]; intros Hok s s1 HE H; cbn [foldM] in H.
-    - injection H as <-. repeat split; try reflexivity. exact HE.
+    - injection H as <-. repeat split; try reflexivity; [exact HE | intros f; left; reflexivity].
     - destruct (set_fstate_hash (p_path x) (p_state x) _ s) as [s2| |] eqn:H2; cbn [bind] in H; try discriminate.
       destruct (set_fstate_hash_spec _ _ _ _ _ H2) as [Hn [Hst [Hd [_ Hfl]]]].
       assert (HE2 : Estatic E s2).
       { intros f Hin. destruct (Hfl f) as [He|[-> Hnew]].
         - rewrite He. apply HE. exact Hin.
         - rewrite Hnew. destruct (Hok x (or_introl eq_refl)) as [_ [->| ->]]; auto. }
-      destruct (IH (fun y Hy => Hok y (or_intror Hy)) s2 s1 HE2 H) as [Hn' [Hst' [Hd' HE']]].
-      repeat split; try congruence. exact HE'.
+      destruct (IH (fun y Hy => Hok y (or_intror Hy)) s2 s1 HE2 H) as [Hn' [Hst' [Hd' [HE' Hf']]]].
+      repeat split; try congruence; [exact HE'|].
+      intros f. destruct (Hf' f) as [He|Hs]; [|right; exact Hs]. rewrite He.
+      destruct (Hfl f) as [He2|[_ Hnew]]; [left; exact He2|]. right. rewrite Hnew.
+      destruct (Hok x (or_introl eq_refl)) as [_ [->| ->]]; auto.
   Qed.
 
   Lemma handle_updated_P l s s' :
@@ -736,7 +740,8 @@ Section ConeUpdate.
     static_sources_b s hs = true ->
     good D E s ->
     update_file_hashes CExternal hs s = Ok s' ->
-    PS D s s' /\ Estatic E s'.
+    PS D s s' /\ Estatic E s' /\
+    (forall f, fstate_of f s' = Some FBuilt -> fstate_of f s = Some FBuilt).
   Proof.
     intros HE Hst Hg H. unfold update_file_hashes in H.
     match type of H with (do plan <- ?F; _) = _ => destruct F as [plan| |] eqn:Hplan end;
@@ -745,7 +750,7 @@ Section ConeUpdate.
     { apply (plan_fold_ok s hs HE Hst [] plan); [intros x []|exact Hplan]. }
     match type of H with (do s1 <- ?F; _) = _ => destruct F as [s1| |] eqn:Hw end;
       cbn [bind] in H; try discriminate.
-    destruct (plan_write_ok plan Hok s s1 (proj2 Hg) Hw) as [Hn [Hs [Hd HE1]]].
+    destruct (plan_write_ok plan Hok s s1 (proj2 Hg) Hw) as [Hn [Hs [Hd [HE1 Hfw]]]].
     assert (P1 : PS D s s1).
     { repeat split; try assumption.
       - rewrite Hs. reflexivity.
@@ -773,7 +778,10 @@ Section ConeUpdate.
       - intros l sa sb Hl Hga Hh. exact (mark_consumers_P D E l sa sb (HDE l Hl) Hga Hh).
       - intros l Hl. exact (with_act_in plan ACompleted l Hok Hl). }
     assert (P14 : P D s1 s') by exact (P_trans D s1 s2 s' P2 (P_trans D s2 s3 s' P3 P4)).
-    split; [|exact (proj2 (good_P D E s1 s' G1 P14))].
+    split; [|split; [exact (proj2 (good_P D E s1 s' G1 P14))|]].
+    2:{ intros f Hb. assert (Hb1 : fstate_of f s1 = Some FBuilt).
+        { destruct (proj2 P14 f) as [He|He]; [rewrite <- He; exact Hb | exact He]. }
+        destruct (Hfw f) as [He|[He|He]]; [rewrite <- He; exact Hb1 | congruence | congruence]. }
     destruct P1 as [Hn1 [Hd1 [Hl1 [Hq1 Hs1]]]]. destruct P14 as [[Hn2 [Hd2 [Hl2 [Hq2 Hs2]]]] _].
     refine (conj _ (conj _ (conj _ (conj _ _)))).
     - congruence.
@@ -1223,7 +1231,7 @@ Section ConeInvariant2.
     destruct (step_op o s) as [s'| |] eqn:Hstep; try exact HR.
     destruct Hop as [hs Hin | l Hc | l Hg | l Hc | l hs Hc Hout]; cbn [step_op] in Hstep.
     - destruct (external_update_P (down q E G) E (fun f Hf => down_edited q E G f Hf) s hs s' Hin
-                  (Estatic_static E s hs (proj2 (R_good q E G s HR)) Hin) (R_good q E G s HR) Hstep) as [HPS HE].
+                  (Estatic_static E s hs (proj2 (R_good q E G s HR)) Hin) (R_good q E G s HR) Hstep) as [HPS [HE _]].
       exact (R_PS q E G s s' HR HPS HE).
     - exact (R_P q E G s s' HR (mark_step_pending_P _ E l s s' Hc (R_good q E G s HR) Hstep)).
     - exact (R_set_sstate q E G s l _ _ s' HR (guard_in_cone q E G Hquiescent s l HR Hg) Hstep).
